@@ -34,6 +34,10 @@ class Ctx:
         self.nsock = 0        # estimate of sockets
         self.sent = []        # (tok, name, type, txref)
         self.cfg = {}
+        self.min_sock = 0     # lower bound of the number of sockets
+        self.min_tx = 0       # lower bound of the number of transmissions (absolute refs below it are valid)
+        self.exact = True     # est_tx is exact so far
+        self.seen = set()     # (name, type) requested so far (a repeat may be served from the cache)
 
     def tag(self):
         self.pkt += 1
@@ -80,7 +84,7 @@ def mutate(cx, kind):
     if kind == "fromport":     # right address, other port (only the address is compared)
         return ["from=10.0.0.%d:%d" % (r.randint(1, 2), r.choice([5353, 1, 65535]))]
     if kind == "on":
-        return ["on=s%d" % r.randint(0, max(1, cx.nsock))]
+        return ["on=s%d" % (r.randint(0, max(0, cx.min_sock - 1)) if r.random() < 0.6 else r.randint(0, max(0, cx.nsock - 1)))]
     if kind == "qr":
         return ["qr=0"]
     if kind == "noq":
@@ -127,11 +131,13 @@ def txref(cx, prefer=None):
     if prefer is not None and r.random() < 0.8:
         return prefer
     c = r.random()
-    if c < 0.45:
+    if c < 0.45 or cx.min_tx == 0:
         return "xl"
-    if c < 0.65:
+    if c < 0.65 and cx.min_tx >= 3:
         return "xl-%d" % r.randint(1, 2)
-    return "x%d" % r.randint(0, max(0, cx.est_tx))
+    if c < 0.97:
+        return "x%d" % r.randint(0, cx.min_tx - 1)
+    return "x%d" % r.randint(0, cx.est_tx + 1)      # occasionally a reference that may not exist
 
 
 def rsp(cx, ref, muts=(), cookie=None, ttl=None, extra=()):
@@ -164,10 +170,20 @@ def send(cx, name=None, typ=None, edns=None):
     if edns:
         flags.append("edns")
     cx.op("send %d %s IN %s %s" % (cx.tok, name, typ, " ".join(flags)))
-    ref = "x%d" % cx.est_tx
+    key = (name.lower().rstrip("."), typ)
+    cacheable = cx.cfg.get("qcachettl", 0) > 0 and key in cx.seen
+    cx.seen.add(key)
+    if "usevc" in cx.cfg["flags"]:
+        cx.op("proc")          # the TCP connection writes at the first write event
+    if cacheable:
+        cx.exact = False       # may be answered from the cache: no transmission
+    ref = ("x%d" % cx.est_tx) if cx.exact else "xl"
     cx.est_tx += 1
+    if not cacheable:
+        cx.min_tx += 1
     if cx.nsock == 0:
         cx.nsock = 1
+    cx.min_sock = max(cx.min_sock, 1)
     cx.sent.append((cx.tok, name, typ, ref))
     return ref
 
@@ -177,6 +193,9 @@ def timeout_step(cx, factor=1.0):
     cx.op("adv %d" % t)
     cx.op("proct")
     cx.est_tx += max(1, len(cx.sent))
+    cx.exact = False
+    if cx.cfg["servers"] >= 2 and cx.cfg["tries"] * cx.cfg["servers"] > 1:
+        cx.min_sock += 1
     cx.nsock += 1
 
 
@@ -353,6 +372,9 @@ def sc_cache(cx):
     variant = r.choice([name, name.upper(), name.lower(), name + "."])
     cx.tok += 1
     cx.op("send %d %s IN %s %s" % (cx.tok, variant, typ if r.random() < 0.85 else "MX", r.choice(["rd", "rd", "", "rd cd"])))
+    if "usevc" in cx.cfg["flags"]:
+        cx.op("proc")
+    cx.exact = False
     cx.est_tx += 1
     if r.random() < 0.5:
         rsp(cx, "xl")
@@ -361,6 +383,8 @@ def sc_cache(cx):
     cx.op("proct")
     cx.tok += 1
     cx.op("send %d %s IN %s rd" % (cx.tok, name, typ))
+    if "usevc" in cx.cfg["flags"]:
+        cx.op("proc")
     cx.est_tx += 2
     rsp(cx, "xl")
     cx.op("proc")
@@ -411,13 +435,13 @@ def sc_errors(cx):
         elif c < 0.55:
             rsp(cx, txref(cx, a), ["trunc"] + (["from"] if r.random() < 0.3 else []))
         elif c < 0.65:
-            cx.op("zerolen s%d" % r.randint(0, max(0, cx.nsock - 1)))
+            cx.op("zerolen s%d" % r.randint(0, max(0, cx.min_sock - 1)))
         elif c < 0.8:
             hexs = "".join("%02x" % r.randint(0, 255) for _ in range(r.randint(1, 11)))
             if r.random() < 0.5:
-                cx.op("raw s%d %s" % (r.randint(0, max(0, cx.nsock - 1)), hexs))
+                cx.op("raw s%d %s" % (r.randint(0, max(0, cx.min_sock - 1)), hexs))
             else:
-                cx.op("rawfrom s%d 10.6.6.6:53 %s" % (r.randint(0, max(0, cx.nsock - 1)), hexs))
+                cx.op("rawfrom s%d 10.6.6.6:53 %s" % (r.randint(0, max(0, cx.min_sock - 1)), hexs))
         else:
             forged(cx, txref(cx, a))
         cx.op("proc")
